@@ -170,6 +170,8 @@ func Load(overlay map[string][]byte, patterns []string, tags string) (*Engine, e
 		timeTypeHolder = tp.Pkg.Scope().Lookup("Time").Type()
 	}
 	e.loadSecs = time.Since(t0).Seconds()
+	e.noMerge = os.Getenv("GOSYM_NOMERGE") != ""
+	e.noModelGuide = os.Getenv("GOSYM_NOGUIDE") != ""
 	if os.Getenv("GOSYM_DEBUG") != "" {
 		var ms runtime.MemStats
 		runtime.GC()
@@ -306,7 +308,7 @@ func (e *Engine) runPath(s *Solver, fn *ssa.Function, prefix []int, wantWitness 
 			s.Pop()
 		}
 	}
-	if wantWitness && p.status == "done" {
+	if wantWitness && p.status == "done" && p.failedAsserts == 0 {
 		s.tag = "witness"
 		if s.Check() == Sat {
 			vars := p.allVars()
